@@ -45,6 +45,16 @@ CLAIMED = {
          'pure-dict conversions. Known findings F10 (root declared leaf), F13 (multi-char separators) refuted by theorem and listed; F1, F18 fixed. No axioms.',
     technique='Coq proof (nested tree induction, list lemmas) + per-run model-vs-implementation correspondence by vm_compute',
     ref='DESIGN.md section 5, C16'),
+  'C17': dict(
+    text='Theorems for every optax transformation (tx_update, apply_updates universally quantified): TrainState/nnx.TrainState.apply_gradients is tx.update then apply_updates with '
+         'step+1, k calls equal the hand-written loop; nnx.Optimizer.update leaves every Variable not selected by wrt untouched and gives the selected ones params+updates at their '
+         'path and type (C14 filter semantics reused); wrap/unwrap of optimizer state are inverse. Metrics over Q: Average (hence Accuracy) and Welford with the Chan merge as coded '
+         'have, after any split of a stream into non-empty batches, the state of the whole stream (field arithmetic). Tied to /repo per run: wrappers vs the hand loop bitwise with 7 '
+         'real transformations; integer-momentum runs of nnx.Optimizer replayed in Coq; every composition of short streams through the real metrics vs the exact rational model.',
+    note='Trusted: Coq kernel, vm_compute, harness, jaxcompat, optax. Float32 evaluation of metrics compared with exact rationals at 2e-5 relative (correspondence rule). '
+         'Axioms: none (Print Assumptions: Closed under the global context; Q field tactics add none).',
+    technique='Coq proof (parametric in the transformation; induction over gradient sequences; Q field/ring for Welford) + per-run correspondence by vm_compute',
+    ref='DESIGN.md section 5, C17'),
   'C19': dict(
     text='Theorems about a Gallina model of the partition-name bookkeeping written from the code (Python list.insert/pop with arbitrary integer index, None padding, '
          'negative-index normalisation as in the fix: commit, jnp-style stacking of shapes, the rule loop of _logical_to_mesh_axes): for every rank and every axis '
